@@ -91,6 +91,21 @@ def check_config(cfg, exp, variant):
             continue
         if not zoo.same(got, want):
             bad.append(('mask[%s]' % k, want.tolist(), np.asarray(got).tolist(), 'shape %s vs %s' % (np.shape(got), want.shape)))
+    # shared operands: a composite evaluated under the view, then its (memoised) operand under the same view - the operand's
+    # answer must not depend on what was asked before
+    from glue.core.subset import MultiOrState
+    want_a = expected(z.full['s:ineq_eq_int'], exp)
+    for op in ('mor', 'or', 'and', 'xor', 'not'):
+        a, b = z.fact['ineq_eq_int'](), z.fact['range']()
+        comp = {'mor': lambda: MultiOrState([a, b]), 'or': lambda: a | b, 'and': lambda: a & b, 'xor': lambda: a ^ b, 'not': lambda: ~a}[op]()
+        try:
+            z.d.get_mask(comp, view=view)
+            got = z.d.get_mask(a, view=view)
+        except Exception as e:
+            bad.append(('mask_after_composite[%s]' % op, want_a.tolist(), 'raised %s: %s' % (type(e).__name__, str(e)[:200]), None))
+            continue
+        if not zoo.same(got, want_a):
+            bad.append(('mask_after_composite[%s]' % op, want_a.tolist(), np.asarray(got).tolist(), 'operand evaluated after the composite'))
     return bad
 
 
